@@ -408,8 +408,8 @@ def _canon(p):
 # entry points
 # --------------------------------------------------------------------------
 def _oracle_pass(run, plist):
-    k_moves = (24, 24, 12) if run.quick else (150, 150, 60)
-    n_oracle = len(plist) if run.quick else 1500
+    k_moves = (24, 24, 12) if run.quick else (100, 100, 40)
+    n_oracle = len(plist) if run.quick else 1200
     evals = 0
     bad = None
     for label, p in plist[:n_oracle]:
